@@ -33,6 +33,8 @@ def build(case, d, tag, seed):
     nz = case['nz']
     n = len(cells)
     traces = inputs.cube((n, nz), seed)
+    if n >= 4 and seed % 2 == 0:       # a live trace whose samples are all zero (muted / dead, with valid line numbers): it is a trace, not a hole
+        traces[1] = 0.0
     hdrs = []
     for t, (i, x) in enumerate(cells):
         hdrs.append({segyio.TraceField.INLINE_3D: il0 + i * ils, segyio.TraceField.CROSSLINE_3D: xl0 + x * xls,
